@@ -16,8 +16,15 @@ use crate::Ctx;
 pub fn generate_sm(prop: &str, ctx: &mut Ctx) {
     match prop {
         "C08" => gen_c08(ctx),
-        "C09" => gen_c09(ctx),
-        "C10" | "C11" => gen_c10(ctx),
+        "C09" => {
+            gen_c09(ctx);
+            snn_cases(ctx);
+        }
+        "C10" => gen_c10(ctx),
+        "C11" => {
+            gen_c10(ctx);
+            snn_cases(ctx);
+        }
         "C12" | "C13" => gen_vsign(ctx),
         "C14" => gen_c14(ctx),
         _ => crate::gen_io::generate_io(prop, ctx),
@@ -1164,6 +1171,149 @@ fn dfs(ctx: &mut Ctx, op: &str, own: u16, alpha: &[String], script: &mut Vec<Str
         script.push(letter);
         dfs(ctx, op, own, alpha, script, budget, count, max);
         script.pop();
+    }
+}
+
+/// A bus that answers like an obliging sign at every address -- requests acknowledged, data met with silence, Hello with
+/// `hello`, each state query with the next of `verdicts` (the last one for ever) -- and writes down what it answered, so
+/// that the conversation can be replayed as a script.  `fail_at`: the reply with this index is a bus error instead.
+struct ResponderBus {
+    verdicts: VecDeque<String>,
+    hello: String,
+    given: Vec<String>,
+    fail_at: Option<usize>,
+    failed: bool,
+    /// the verdicts go round and round instead of ending on the last one
+    cycle: bool,
+}
+
+impl SignBus for ResponderBus {
+    fn process_message<'a>(&mut self, message: Message<'_>) -> Result<Option<Message<'a>>, Box<dyn std::error::Error + Send + Sync>> {
+        if self.failed || self.given.len() >= 4000 {
+            self.failed = true;
+            return Err("the bus has failed".into());
+        }
+        if self.fail_at == Some(self.given.len()) {
+            self.failed = true;
+            self.given.push("E".to_string());
+            return Err("scripted bus error".into());
+        }
+        let r = match &message {
+            Message::Hello(a) => format!("RS.{}.{}", a.0, self.hello),
+            Message::QueryState(a) => {
+                let v = if self.verdicts.len() > 1 { self.verdicts.pop_front().unwrap() } else { self.verdicts[0].clone() };
+                if self.cycle {
+                    self.verdicts.push_back(v.clone());
+                }
+                format!("RS.{}.{}", a.0, v)
+            }
+            Message::RequestOperation(a, o) => str_msg(&Message::AckOperation(*a, *o)),
+            _ => "N".to_string(),
+        };
+        self.given.push(r.clone());
+        Ok(if r == "N" { None } else { Some(own_msg(&msg_of_str(&r))) })
+    }
+}
+
+/// send_pages over an iterator that makes calls of its own on the same bus (`SNN`): scripts recorded from an obliging
+/// responder, with a bus error at every position and cut short at every position for the small ones.
+fn snn_cases(ctx: &mut Ctx) {
+    let mut rng = Rng::new(ctx.seed, 911);
+    let own = 3u16;
+    let t90 = SIGN_TYPES.iter().position(|t| *t == flipdot::SignType::Max3000Side90x7).unwrap();
+    let p1 = small_page(1, 2, 8, &mut rng);
+    let p2 = small_page(2, 2, 8, &mut rng);
+    let p3 = small_page(3, 20, 8, &mut rng);
+    let q = |p: &str| p.replace('.', ":");
+    let nesteds: Vec<(String, Vec<String>)> = vec![
+        ("BYE:7~-".to_string(), vec![p1.clone(), p2.clone()]),
+        (format!("SND:3:{}~LNX:3:5", q(&p2)), vec![p1.clone(), p2.clone()]),
+        (format!("SND:3:{}", q(&p2)), vec![p1.clone()]),
+        (format!("SND:3:{}/SND:3:{}+{}", q(&p2), q(&p1), q(&p2)), vec![p3.clone()]),
+        ("CFG:7:5~-".to_string(), vec![p1.clone(), p2.clone()]),
+        (format!("CIN:3:{}/BYE:3", t90), vec![p1.clone()]),
+        (format!("CFG:3:{}", t90), vec![p1.clone(), p3.clone()]),
+        (format!("-~SND:3:{}+{}", q(&p2), q(&p3)), vec![p1.clone(), p2.clone()]),
+        (format!("SHW:3:4~SND:7:{}~LNX:7:3", q(&p2)), vec![p1.clone(), p2.clone(), p3.clone()]),
+        ("-~-".to_string(), vec![p1.clone(), p2.clone()]),
+    ];
+    let verdicts: Vec<Vec<&str>> = vec![
+        vec!["PFL"],
+        vec!["PRX"],
+        vec!["PFL", "PRX"],
+        vec!["PFL", "PFL", "PRX"],
+        vec!["PRX", "PFL"],
+        vec!["PFL", "PFL", "PFL", "PRX", "PLD", "PFL"],
+        vec!["PRX", "PLD", "PFL", "PFL", "PRX"],
+        vec!["CFL", "CRX", "PFL", "PRX", "PSH", "PLD", "PRX"],
+        vec!["PFL", "PFL", "PFL", "PFL", "PFL", "PFL", "PFL", "PFL", "PFL", "PRX"],
+        vec!["PLP", "PFL", "PSP", "PRX", "SHP"],
+        // going round: a configuration is always received, pixels never (or only at the fourth try)
+        vec!["@", "CRX", "PFL"],
+        vec!["@", "PFL", "CRX"],
+        vec!["CRX", "PFL", "CRX", "PFL", "CRX", "PFL", "CRX", "PRX", "PLD"],
+        vec!["@", "PFL", "PFL", "PRX"],
+    ];
+    let record = |op: &str, v: &[&str], hello: &str, fail_at: Option<usize>| -> Vec<String> {
+        let cycle = v[0] == "@";
+        let v = if cycle { &v[1..] } else { v };
+        let bus = Rc::new(RefCell::new(ResponderBus { verdicts: v.iter().map(|s| s.to_string()).collect(), hello: hello.to_string(), given: vec![], fail_at, failed: false, cycle }));
+        let _ = run_cop(op, bus.clone());
+        let g = bus.borrow().given.clone();
+        g
+    };
+    for (ni, (nested, pages)) in nesteds.iter().enumerate() {
+        let op = format!("SNN.{}.{}.{}", own, nested, pages.join("+"));
+        let same_snd = nested.matches("SND:3:").count();
+        for (vi, v) in verdicts.iter().enumerate() {
+            let hello = if vi >= 10 { "UNC" } else { ["UNC", "CRX", "PLD", "RTR"][(ni + vi) % 4] };
+            let full = record(&op, v, hello, None);
+            let mut scripts: Vec<(Vec<String>, &str)> = vec![(full.clone(), "recorded")];
+            if (ni + vi) % 3 == 0 || ctx.tier_thorough {
+                let step = if ctx.tier_thorough { 1 } else { 1 + full.len() / 12 };
+                for at in (0..full.len()).step_by(step) {
+                    scripts.push((record(&op, v, hello, Some(at)), "bus-error-inside"));
+                    scripts.push((full[..at].to_vec(), "cut-short"));
+                }
+            }
+            for (script, class) in scripts {
+                let line = format!("CT {} {}", op, script.join(" ")).trim_end().to_string();
+                let res = ctx.case(line.clone(), true, &format!("talking-source-{}", class));
+                let (tr, outcome) = res.split_once(" => ").unwrap_or(("", "?"));
+                let trace: Vec<&str> = tr.split(' ').filter(|x| !x.is_empty()).collect();
+                // bounded retries whatever the source does: every run of the source's calls happens once per attempt
+                let reqs = trace.iter().filter(|m| **m == format!("RO.{}.RPX", own)).count();
+                let bound = 3 * (1 + 3 * same_snd);
+                ctx.monitor(reqs <= bound, "C11-invariants", &line, &format!("{} pixel transfers were requested of sign {}; at most {} are due", reqs, own, bound));
+                // complete and ordered: a successful call has sent, in order, every chunk of every page and then their count
+                if outcome.starts_with("DONE") {
+                    let mut want: Vec<String> = vec![];
+                    for p in pages {
+                        let b = bytes_of_hex(p.split('.').nth(2).unwrap());
+                        for (i, c) in b.chunks(16).enumerate() {
+                            want.push(format!("SD.{}.{}", i * 16, hex_of_bytes(c)));
+                        }
+                    }
+                    want.push(format!("DC.{}", want.len()));
+                    want.push(format!("QS.{}", own));
+                    want.push(format!("PC.{}", own));
+                    let mut it = trace.iter();
+                    let ok = want.iter().all(|w| it.any(|m| m == w));
+                    ctx.monitor(ok, "C09-transfer-shape", &line, "a successful call did not send every chunk of every page, in order, then their count");
+                }
+            }
+        }
+    }
+    // the same sources against virtual signs
+    for (nested, pages) in [
+        ("CFG:7:5~LNX:3:5".to_string(), vec![small_page(1, 90, 7, &mut rng), small_page(2, 90, 7, &mut rng)]),
+        (format!("SND:3:{}~BYE:7", q(&small_page(9, 90, 7, &mut rng))), vec![small_page(1, 90, 7, &mut rng), small_page(2, 90, 7, &mut rng)]),
+        (format!("CIN:3:{}~SHW:3:9~CIN:7:5", t90), vec![small_page(1, 90, 7, &mut rng), small_page(2, 90, 7, &mut rng), small_page(3, 90, 7, &mut rng)]),
+    ] {
+        for style in ["M", "A"] {
+            let line = format!("CL 2 3 {} 7 M | CFG.3.{} SNN.3.{}.{} SHW.3.50 LNX.3.50", style, t90, nested, pages.join("+"));
+            ctx.case(line, true, "talking-source-virtual-signs");
+        }
     }
 }
 
